@@ -274,13 +274,15 @@ func NewPrefixPool(cidr string, delegationLen uint8, preferred, valid uint32) (*
 	}
 
 	// Generate available prefixes
-	numPrefixes := 1 << (int(delegationLen) - ones)
-	if numPrefixes > 1000 {
-		numPrefixes = 1000 // Limit for memory
+	indexBits := int(delegationLen) - ones
+	numPrefixes := 1000 // Limit for memory
+	if indexBits < 10 {
+		// 1 << indexBits overflows int for 63 or more index bits, so only
+		// shift when the result is below the limit anyway.
+		numPrefixes = 1 << indexBits
 	}
 
 	baseIP := ipnet.IP.To16()
-	indexBits := int(delegationLen) - ones
 
 	for i := 0; i < numPrefixes; i++ {
 		prefix := make(net.IP, 16)
